@@ -19,8 +19,8 @@ from vf.oracle import sph
 
 ID = "C05"
 RULE = (
-    "faces: regular n-gons n=3..8 x angular radius {1, 4.9, 14.9, 32} deg (<= 10 / 30 / 65 degrees across) x 13 centres (both poles, antimeridian, prime meridian, "
-    "generic) x 2 phases; convex lattice triangles/quads under 4 placements; each under every start corner, both coordinate inputs (lon/lat and xyz), both families x "
+    "faces: kilometre-scale n-gons (radius 0.003 deg) and pentagons with one 0.005-deg edge; regular n-gons n=3..8 x angular radius {1, 4.9, 14.9, 32} deg (<= 10 / 30 / 65 degrees across) x 13 centres (both poles, antimeridian, prime meridian, "
+    "generic) x 2 phases; convex lattice triangles/quads under 4 placements; each under every start corner, three coordinate inputs (lon/lat, unit xyz, xyz in kilometres), both families x "
     "every supported order (triangular 1,4,8,10,12; gaussian 1..10); every diagonal and centre-fan subdivision; closed tilings (icosahedron, 2^3 and 3^3 cube-spheres) "
     "under node/face renumbering; quadrature tables: every rule x every monomial up to degree 24. non-trivial = face with >= 4 corners or placed on a pole / the "
     "antimeridian; distinct = (face, start corner, rule, order, input)"
@@ -66,6 +66,13 @@ def _faces(tier):
             for ci, c in enumerate(CENTRES):
                 for ph in phases:
                     yield {"fam": "ngon", "n": n, "r": rad, "c": ci, "ph": ph}, _ngon(n, rad, c, ph)
+    # kilometre-scale faces and faces with one very short edge (absolute tolerances in the code would show here)
+    for n in (3, 4, 6):
+        for ci in (0, 3, 5, 6, 9):
+            yield {"fam": "tiny", "n": n, "c": ci}, _ngon(n, 0.003, CENTRES[ci], 0.4)
+    for ci, (lo, la) in enumerate([(11.0, 47.0), (-179.9975, -20.0), (60.0, 89.2)]):
+        ll = [(0.0, 0.0), (0.005, 0.0), (0.6, 0.5), (0.1, 1.0), (-0.5, 0.45)]
+        yield {"fam": "short-edge", "place": ci}, np.array([meshes.lonlat_to_xyz(lo + a / max(0.05, math.cos(math.radians(la))), la + b * 0.7) for a, b in ll])
     base = [(2.0 * i + 0.3 * j, 1.7 * j + 0.2 * i) for i in range(4 if tier == "quick" else 5) for j in range(4)]
     places = [(20.0, 30.0), (-179.0, -40.0)] if tier == "quick" else [(20.0, 30.0), (-179.0, -40.0), (-2.0, 80.0), (100.0, -85.0), (0.5, 0.5), (179.0, 89.0)]
     for pi, (lo, la) in enumerate(places):
@@ -85,13 +92,20 @@ def _faces(tier):
                     yield {"fam": "lattice", "place": pi, "comb": list(comb)}, P
 
 
-def _grid_of(faces):
+def _grid_of(faces, scale=None):
     pts, fl = [], []
     for P in faces:
         off = len(pts)
         pts += [tuple(p) for p in P]
         fl.append(tuple(range(off, off + len(P))))
-    return build.grid(meshes.Mesh("c05", pts, fl, False))
+    m = meshes.Mesh("c05", pts, fl, False)
+    if scale is None:
+        return build.grid(m)
+    import uxarray as ux
+
+    lon, lat = m.lonlat()
+    X = np.array(pts, dtype=float) * scale
+    return ux.Grid.from_topology(lon.copy(), lat.copy(), m.table(), fill_value=build.FILL, node_x=X[:, 0].copy(), node_y=X[:, 1].copy(), node_z=X[:, 2].copy())
 
 
 def cases(tier):
@@ -221,12 +235,22 @@ def _run_faces(case, res):
     g = _grid_of(flat)
     env = {}
     rules = [("triangular", o) for o in TRI_ORDERS] + [("gaussian", o) for o in GAUSS_ORDERS]
+    gR = None
     for rule, order in rules:
-        for latlon in (True, False):
+        for latlon in (True, False, "scaled"):
             if not latlon and (rule, order) != ("triangular", 4) and not (rule == "gaussian" and order == 5):
                 continue
+            if latlon == "scaled" and (rule, order) != ("triangular", 4) and not (rule == "gaussian" and order == 5):
+                continue
             try:
-                a, _ = g.compute_face_areas(rule, order, latlon=latlon)
+                if latlon == "scaled":
+                    # Cartesian corner coordinates that are not on the unit sphere (kilometres): the area is still the unit-sphere area
+                    if gR is None:
+                        gR = _grid_of(flat, scale=6371.22)
+                    a, _ = gR.compute_face_areas(rule, order, latlon=False)
+                    latlon = False
+                else:
+                    a, _ = g.compute_face_areas(rule, order, latlon=latlon)
                 a = np.asarray(a, dtype=float)
             except Exception as e:
                 V.append({"oracle": "area", "sig": "c05:raises:%s:%s" % ("latlon" if latlon else "xyz", type(e).__name__), "msg": "compute_face_areas(%s, %d, latlon=%s) raised %r" % (rule, order, latlon, e), "focus": dict(case, only={"rule": rule, "order": order, "latlon": latlon})})
